@@ -214,16 +214,17 @@ type execRun struct {
 
 	inflight, maxInfl int
 	ctxBad            int
-	elemOrd           [64]int // started element calls per collection
+	elemOrd           [64]int   // started element calls per collection
 	memo              []memoEnt // identity-carrying errors and panic values handed out (no maps: the race detector sees map internals)
 	callerSlot        int
 
-	returned    bool
-	res         []uint64
-	err         error
-	ctxErrAtRet error
-	propagated  any // panic that escaped the directive
-	predSeen    [64]bool
+	returned            bool
+	res                 []uint64
+	err                 error
+	ctxErrAtRet         error
+	propagated          any // panic that escaped the directive
+	predSeen            [64]bool
+	identSeen, identBad int
 
 	errFired, panicFired, goexitFired, cancelFired, predFalse, predPanic, fbUsed int
 }
@@ -311,6 +312,14 @@ func (x *execRun) panicVal(kind, id, ord int) any {
 
 //go:norace
 func (x *execRun) count(p *int) { *p++ }
+
+//go:norace
+func (x *execRun) noteIdent(k int, ok bool) {
+	x.identSeen++
+	if !ok {
+		x.identBad++
+	}
+}
 
 //go:norace
 func (x *execRun) setCtx(ctx context.Context, cancel context.CancelFunc) {
@@ -519,6 +528,8 @@ func (h *hh) Probe(k int) {
 	}
 	x.log(EvProbe, k, 0, nil, 0, 0)
 }
+
+func (h *hh) Ident(k int, ok bool) { h.x.noteIdent(k, ok) }
 
 func (h *hh) Conc(int) int { return h.x.d.Conc }
 
